@@ -29,6 +29,7 @@ GStep ==
     \/ \E b \in Blocks : Deliver(b) /\ Log("Deliver", b)
     \/ BalEnable /\ Log("BalEnable", 0)
     \/ BalDisable /\ Log("BalDisable", 0)
+    \/ Idle /\ Log("Idle", 0)
 
 Emit ==
     IF EmitAt = 0
